@@ -35,6 +35,9 @@ type pomOpt struct {
 	// RelPath: how <parent> names its local parent: 0 no <relativePath> (default ../pom.xml), 1 explicit
 	// ../pom.xml, 2 the directory (..)
 	RelPath int
+	// Inherit: which of its own coordinates the local parent (which itself has a <parent>) leaves out and
+	// inherits from the grandparent (org.gpar:gpar:7): 0 none, 1 <version>, 2 <groupId>, 3 both
+	Inherit int
 	// NoVer: org.nv:nv is declared in <dependencies> WITHOUT <version> and managed in
 	// <dependencyManagement> with 1 a literal version / 2 a property of its own
 	NoVer int
@@ -68,6 +71,9 @@ func (o pomOpt) valid() bool {
 		return false
 	}
 	if o.RelPath > 0 && o.Parent == 0 {
+		return false
+	}
+	if o.Inherit > 0 && o.Parent < 2 {
 		return false
 	}
 	if o.Dup > 0 && (o.PropKind == 0 || o.PropInMgmt || (o.Dup == 2 && o.Profile == 0) || (o.Dup == 3 && !o.Plugin)) {
@@ -159,6 +165,19 @@ func (w *xw) props(ps [][2]string, comments, cdata bool) {
 	w.close("properties")
 }
 
+// parentCoords are the effective groupId and version of the local parent: what it declares itself,
+// else what it inherits from the grandparent (org.gpar, 7).
+func (o pomOpt) parentCoords() (g, v string) {
+	g, v = "org.par", "1"
+	if o.Inherit&2 != 0 {
+		g = "org.gpar"
+	}
+	if o.Inherit&1 != 0 {
+		v = "7"
+	}
+	return
+}
+
 func relPath(w *xw, kind int) {
 	switch kind {
 	case 1:
@@ -203,10 +222,11 @@ func (o pomOpt) render() (map[string]string, []string) {
 	w.open(projectTag(o))
 	w.leaf("modelVersion", "4.0.0")
 	if o.Parent >= 1 {
+		pg, pv := o.parentCoords()
 		w.open("parent")
-		w.leaf("groupId", "org.par")
+		w.leaf("groupId", pg)
 		w.leaf("artifactId", "par")
-		w.leaf("version", "1")
+		w.leaf("version", pv)
 		relPath(w, o.RelPath)
 		w.close("parent")
 	}
@@ -359,13 +379,17 @@ func (o pomOpt) render() (map[string]string, []string) {
 			w.open("parent")
 			w.leaf("groupId", "org.gpar")
 			w.leaf("artifactId", "gpar")
-			w.leaf("version", "1")
+			w.leaf("version", "7")
 			relPath(w, o.RelPath)
 			w.close("parent")
 		}
-		w.leaf("groupId", "org.par")
+		if o.Inherit&2 == 0 {
+			w.leaf("groupId", "org.par")
+		}
 		w.leaf("artifactId", "par")
-		w.leaf("version", "1")
+		if o.Inherit&1 == 0 {
+			w.leaf("version", "1")
+		}
 		w.leaf("packaging", "pom")
 		pp := [][2]string{{"pp", "1.0"}}
 		if o.ParentProp {
@@ -402,7 +426,7 @@ func (o pomOpt) render() (map[string]string, []string) {
 		w.leaf("modelVersion", "4.0.0")
 		w.leaf("groupId", "org.gpar")
 		w.leaf("artifactId", "gpar")
-		w.leaf("version", "1")
+		w.leaf("version", "7")
 		w.leaf("packaging", "pom")
 		gp := [][2]string{{"gp", "1.0"}}
 		if o.ParentProp {
@@ -490,6 +514,15 @@ func genPomDocs(thorough bool) []*pomDoc {
 			}
 		}
 	}
+	// Family I: the local parent leaves out its own groupId and/or version and inherits them from ITS parent
+	for inh := 1; inh <= 3; inh++ {
+		for _, pp := range bools {
+			add("inherited-coordinates", pomOpt{Parent: 2, Deps: true, ParentProp: pp, Inherit: inh}, 2, 1)
+			if thorough {
+				add("inherited-coordinates", pomOpt{Parent: 2, Deps: true, Mgmt: true, PropKind: 1, Profile: 1, ParentProp: pp, Inherit: inh, RelPath: 2}, 2, 1)
+			}
+		}
+	}
 	// Family B: local parent / grandparent x reduced child (quick) or full child (thorough)
 	pks := []int{0, 1, 2}
 	pfs := []int{0, 1}
@@ -547,7 +580,7 @@ func genPomDocs(thorough bool) []*pomDoc {
 
 func (o pomOpt) weight() int {
 	w := o.Parent * 10
-	for _, b := range []bool{o.Deps, o.Mgmt, o.PropKind > 0, o.PropInMgmt, o.Shared, o.Profile > 0, o.Profile > 1, o.Plugin, o.ParentProp, o.Dup > 0, o.RelPath > 0, o.NoVer > 0, o.Comments, o.CDATA, o.PI, o.NS, o.NestedAttr, o.VerDecor} {
+	for _, b := range []bool{o.Deps, o.Mgmt, o.PropKind > 0, o.PropInMgmt, o.Shared, o.Profile > 0, o.Profile > 1, o.Plugin, o.ParentProp, o.Dup > 0, o.RelPath > 0, o.Inherit > 0, o.NoVer > 0, o.Comments, o.CDATA, o.PI, o.NS, o.NestedAttr, o.VerDecor} {
 		if b {
 			w++
 		}
